@@ -34,6 +34,7 @@ def main : IO UInt32 := do
   | ["model", "msg"] => loopPure stdin stdout Msg.driverStep
   | ["model", "symexpr"] => loopState stdin stdout SymExpr.driverStep {}
   | ["model", "loader"] => loopPure stdin stdout Loader.driverStep
+  | ["model", "loaderx"] => loopPure stdin stdout Loader.driverStepX
   | _ => IO.eprintln s!"unknown model line: {first}"; return 2
   stdout.flush
   return 0
